@@ -128,6 +128,11 @@ func checkFramingLate(w *core.Worker, raw []byte, H, declared int, flags uint8, 
 	if e != we || n != wo {
 		return fail(fmt.Sprintf("expected verdict %s and offset %d", errName(we), wo))
 	}
+	// the same verdict seen through the error interface (a missing Content-Length must be
+	// reported as such there, too)
+	if ec := e.ErrorConv(); (e == sipsp.ErrHdrOk && ec != nil) || (e != sipsp.ErrHdrOk && (ec == nil || ec.Error() != e.Error())) {
+		return fail(fmt.Sprintf("verdict %s converts to the error value %v", errName(e), ec))
+	}
 	m := &o.m
 	if m.Parsed() != wp {
 		return fail(fmt.Sprintf("expected Parsed()=%v", wp))
